@@ -59,3 +59,33 @@ func AssignLinSem(t *rapid.T, s *Spec) {
 		r.Sem = m
 	}
 }
+
+// MakePlain turns every action into a plain one ("{ $$ = ... }" without the
+// recording call) and many of them into the pure forwarding "$$ = $k" that
+// grammars are full of (always between integer fields, often different ones).
+func MakePlain(t *rapid.T, s *Spec) {
+	for i := range s.Rules {
+		r := &s.Rules[i]
+		r.Plain = true
+		if s.NTs[r.LHS].Tag == "" {
+			continue
+		}
+		var cand []int
+		for j, x := range r.RHS {
+			if s.SymTag(x) != "" {
+				cand = append(cand, j+1)
+			}
+		}
+		if len(cand) == 0 {
+			continue
+		}
+		p := 2 // one in p+1 keeps its linear action
+		if len(r.RHS) == 1 {
+			p = 4
+		}
+		if rapid.IntRange(0, p).Draw(t, "forward") > 0 {
+			k := cand[rapid.IntRange(0, len(cand)-1).Draw(t, "fwdpos")]
+			r.Sem = &Sem{Kind: "copy", Terms: []SemTerm{{Coef: 1, Pos: k}}}
+		}
+	}
+}
